@@ -12,7 +12,7 @@
 From Coq Require Import ZArith List String Bool Permutation.
 Import ListNotations.
 From TK Require Import Par_Model Par_Spec Par_Proof Par_Region_Model Par_Region_Proof Par_Region_Gen
-  Par_Example Omp.
+  Par_Fill_Model Par_Fill_Proof Par_Example Omp.
 
 (* ---------------------------------------------------------------- generic theorems (once) *)
 
@@ -237,3 +237,48 @@ Example c15_checker_rejects_from_zero :
   check_shared bad = false /\
   find_conflict (mkRegion "bad" bad []) = Some ("dm"%string, (0, 1, (1, 0)))%Z.
 Proof. exact Par_Example.ex_from_zero. Qed.
+
+(* ---------------------------------------------------------------- one region family end to end *)
+
+(* T14 the symmetric fill (compute_distance_matrix x2, compute_diffusion_matrix, CLI
+   matrix_from_callback) as a program of the model: for EVERY size N, assignment and interleaving there
+   is no race, and when all threads are done entry (a,b) holds f (min a b) (max a b) — the value the
+   callback expression gives for that pair, computed once by the iteration that owns it *)
+Theorem c15_sym_fill_all_schedules :
+  forall (V C : Type) (var : string) (f : nat -> nat -> V) N asg (m0 : key -> V) p0 sch qs st,
+    valid_asg N asg ->
+    run_sched key_eqb sch (init_queues (sym_body V C var f N) asg, mkState m0 p0 []) = (qs, st) ->
+    ~ race qs /\
+    (done qs -> forall a b, a < N -> b < N ->
+       sh st (mkey var a b) = f (Nat.min a b) (Nat.max a b)).
+Proof. exact Par_Fill_Proof.sym_fill_all_schedules. Qed.
+Print Assumptions c15_sym_fill_all_schedules.
+
+(* T15 the descriptors T-omp extracts for those regions have exactly the shape T14's body conforms to *)
+Theorem c15_gen_sym_shapes :
+  Forall (fun r => map acc_shape (r_shared r) = map acc_shape (sym_accs ""))
+         (filter is_sym_region regions).
+Proof. exact Par_Region_Gen.gen_sym_shapes. Qed.
+Print Assumptions c15_gen_sym_shapes.
+
+Example c15_sym_fill_example :
+  valid_asg 2 ex_asg /\ done (fst sym_final) /\
+  sh (snd sym_final) (mkey "dm" 1 0) = 1%Z /\ sh (snd sym_final) (mkey "dm" 1 1) = 11%Z.
+Proof. exact Par_Example.ex_sym_fill. Qed.
+
+(* ---------------------------------------------------------------- HLLE: private_reinit of Yi *)
+
+(* T16 the model of the HLLE iteration (write column 0, columns 1..d, the quadratic columns given by the
+   bookkeeping EXTRACTED FROM THE SOURCE; then read every column 0..d+d(d+1)/2; then the critical
+   section) re-initialises the thread-private Yi, for every target dimension: with T2 its result does
+   not depend on which neighbourhood the same thread handled before *)
+Theorem c15_gen_hlle_body_reinit : forall (V C : Type) (v0 : V) (c0 : C) d,
+  reinit (fun _ => False) (hlle_body V C v0 c0 gen_hlle_step gen_hlle_col d).
+Proof. exact Par_Region_Gen.gen_hlle_body_reinit. Qed.
+Print Assumptions c15_gen_hlle_body_reinit.
+
+(* regression (F6): the old counter update fails private_reinit at d = 3 (column 9 read stale) *)
+Theorem c15_hlle_body_old_refuted : forall (V C : Type) (v0 : V) (c0 : C),
+  ~ reinit (fun _ => False) (hlle_body V C v0 c0 hlle_step_old hlle_col_expected 3).
+Proof. exact Par_Fill_Proof.hlle_body_old_not_reinit. Qed.
+Print Assumptions c15_hlle_body_old_refuted.
